@@ -209,14 +209,32 @@ fn diff(kind: &str, want: &[ASong], got: &[ASong]) -> Option<String> {
     None
 }
 
+/// the protocol's tag names (MPD tag_names[]), plus one the library does not know
+const TAG_NAMES: &[&str] = &[
+    "Artist", "ArtistSort", "Album", "AlbumSort", "AlbumArtist", "AlbumArtistSort", "Title", "Track", "Name", "Genre", "Date", "OriginalDate", "Composer", "ComposerSort", "Performer", "Conductor", "Work", "Ensemble", "Movement",
+    "MovementNumber", "Location", "Grouping", "Comment", "Disc", "Label", "MUSICBRAINZ_ARTISTID", "MUSICBRAINZ_ALBUMID", "MUSICBRAINZ_ALBUMARTISTID", "MUSICBRAINZ_TRACKID", "MUSICBRAINZ_RELEASETRACKID", "MUSICBRAINZ_WORKID",
+    "X-Custom",
+];
+
 fn check_listing(listing: &[Entry], acc: &mut Acc, verbose: bool) {
     let (fields, want) = encode(listing);
+    let only_songs = listing.iter().all(|e| matches!(e, Entry::Song { .. }));
+    check_fields_inner(&fields, &want, &listing_json(listing), listing.len() > 1, only_songs, acc, verbose);
+}
+
+fn check_fields(fields: &[(String, String)], want: &[ASong], case: &Value, acc: &mut Acc, verbose: bool) {
+    check_fields_inner(fields, want, case, false, true, acc, verbose);
+}
+
+fn check_fields_inner(fields: &[(String, String)], want: &[ASong], case: &Value, several: bool, only_songs: bool, acc: &mut Acc, verbose: bool) {
+    let fields = fields.to_vec();
+    let want = want.to_vec();
     acc.listings += 1;
-    if listing.len() > 1 || want.iter().any(|s| !s.tags.is_empty() || s.duration.is_some()) {
+    if several || want.iter().any(|s| !s.tags.is_empty() || s.duration.is_some()) {
         acc.nontrivial += 1;
     }
     let frame = || make_frames(&[AFrame { fields: fields.clone(), binary: None }], false).remove(0);
-    let case = listing_json(listing);
+    let case = case.clone();
     if verbose {
         println!("  reply lines: {:?}", fields.iter().map(|(k, v)| format!("{k}: {v}")).collect::<Vec<_>>());
         println!("  listed songs: {want:?}");
@@ -249,7 +267,7 @@ fn check_listing(listing: &[Entry], acc: &mut Acc, verbose: bool) {
     report("find", catch(|| c::Find::new(mpd_client::filter::Filter::tag(mpd_client::tag::Tag::Artist, "x")).response(frame()).map(|v| v.iter().map(observe_song).collect()).map_err(|e| e.to_string())), &want_plain, acc);
     report("listplaylistinfo", catch(|| c::GetPlaylist("p").response(frame()).map(|v| v.iter().map(observe_song).collect()).map_err(|e| e.to_string())), &want_plain, acc);
     report("listallinfo", catch(|| c::ListAllIn::root().response(frame()).map(|v| v.iter().map(observe_song).collect()).map_err(|e| e.to_string())), &want_plain, acc);
-    if want.len() <= 1 && listing.iter().all(|e| matches!(e, Entry::Song { .. })) {
+    if want.len() <= 1 && only_songs {
         report("currentsong", catch(|| c::CurrentSong.response(frame()).map(|v| v.iter().map(observe_queued).collect()).map_err(|e| e.to_string())), &want, acc);
     }
 }
@@ -330,12 +348,50 @@ pub fn run(tier: Tier) -> i32 {
             acc
         })
         .reduce(Acc::default, Acc::merge);
-    let acc = acc1.merge(acc2);
+    // every tag name of the protocol as a line of a song (one at a time, and all together)
+    let mut acc3 = Acc::default();
+    {
+        let mut all_fields: Vec<(String, String)> = vec![("file".into(), "all.flac".into())];
+        let mut all_tags: BTreeMap<String, Vec<String>> = BTreeMap::new();
+        for (i, name) in TAG_NAMES.iter().enumerate() {
+            for (url, extra) in [("one.flac", None), ("two.flac", Some(("Pos", "4")))] {
+                let mut fields: Vec<(String, String)> = vec![("file".into(), url.into()), (name.to_string(), format!("value {i}")), (name.to_string(), format!("second {i}"))];
+                if let Some((k, v)) = extra {
+                    fields.push((k.into(), v.into()));
+                }
+                let mut want = ASong { url: url.into(), ..Default::default() };
+                want.tags.insert(name.to_string(), vec![format!("value {i}"), format!("second {i}")]);
+                if extra.is_some() {
+                    want.position = 4;
+                }
+                check_fields(&fields, &[want], &json!({"tag_line": name}), &mut acc3, false);
+            }
+            all_fields.push((name.to_string(), format!("v{i}")));
+            all_tags.insert(name.to_string(), vec![format!("v{i}")]);
+        }
+        let want = ASong { url: "all.flac".into(), tags: all_tags, ..Default::default() };
+        check_fields(&all_fields, &[want], &json!({"tag_line": "all"}), &mut acc3, false);
+    }
+    // every millisecond value in a range as a song duration / range bound
+    let ms_max = tier.pick(5_000u64, 60_000u64);
+    let acc4 = (0..=ms_max)
+        .into_par_iter()
+        .map(|ms| {
+            let mut acc = Acc::default();
+            let text = format!("{}.{:03}", ms / 1000, ms % 1000);
+            let fields: Vec<(String, String)> = vec![("file".into(), "d.flac".into()), ("duration".into(), text.clone()), ("Range".into(), format!("{text}-"))];
+            let d = Duration::from_millis(ms);
+            let want = ASong { url: "d.flac".into(), duration: Some(d), range: Some((d, None)), ..Default::default() };
+            check_fields(&fields, &[want], &json!({"duration_ms": ms}), &mut acc, false);
+            acc
+        })
+        .reduce(Acc::default, Acc::merge);
+    let acc = acc1.merge(acc2).merge(acc3).merge(acc4);
     let mut cov = Coverage::default();
     cov.evaluations = acc.decodes;
     cov.distinct_nontrivial = acc.nontrivial;
     cov.rule = format!(
-        "one-song listings with every ordered selection of <= {} distinct lines out of 13 (duration, Time, two Range forms, Format, Last-Modified, Prio, Pos, Id, Title twice, Artist, unknown tag): {} shapes; all listings of 0..={} entries over 10 entry kinds (6 song shapes, directory / playlist with and without their own Last-Modified): {} listings; each decoded by playlistinfo, playlistinfo RANGE, find, listplaylistinfo, listallinfo (and currentsong for <= 1 song); non-trivial = listings with several entries or a song with tags / duration",
+        "one-song listings with every ordered selection of <= {} distinct lines out of 13 (duration, Time, two Range forms, Format, Last-Modified, Prio, Pos, Id, Title twice, Artist, unknown tag): {} shapes; all listings of 0..={} entries over 10 entry kinds (6 song shapes, directory / playlist with and without their own Last-Modified): {} listings; each decoded by playlistinfo, playlistinfo RANGE, find, listplaylistinfo, listallinfo (and currentsong for <= 1 song); plus every one of the protocol's 31 tag names (and an unknown one) as a repeated line of a song, one at a time and all together; every millisecond value 0.000..5.000 s (thorough: ..60.000 s) as duration and Range start; non-trivial = listings with several entries or a song with tags / duration",
         tier.pick(4, 5),
         sel.len(),
         tier.pick(3, 4),
@@ -352,6 +408,35 @@ pub fn run(tier: Tier) -> i32 {
 }
 
 pub fn replay(case: &Value) -> i32 {
+    if let Some(name) = case.get("tag_line").and_then(|v| v.as_str()) {
+        println!("replay C14: song with tag line {name}");
+        let mut acc = Acc::default();
+        let names: Vec<&str> = if name == "all" { TAG_NAMES.to_vec() } else { vec![name] };
+        for n in names {
+            let fields: Vec<(String, String)> = vec![("file".into(), "one.flac".into()), (n.to_string(), "value".into())];
+            let mut want = ASong { url: "one.flac".into(), ..Default::default() };
+            want.tags.insert(n.to_string(), vec!["value".into()]);
+            check_fields(&fields, &[want], case, &mut acc, true);
+        }
+        if acc.viol.is_empty() {
+            println!("replay: property holds on this case");
+            return 0;
+        }
+        for (sig, (_, ex)) in &acc.viol.by_sig {
+            println!("replay: VIOLATION sig={sig}: {}", ex[0].what);
+        }
+        return 1;
+    }
+    if let Some(ms) = case.get("duration_ms").and_then(|v| v.as_u64()) {
+        let text = format!("{}.{:03}", ms / 1000, ms % 1000);
+        println!("replay C14: song with duration {text}");
+        let fields: Vec<(String, String)> = vec![("file".into(), "d.flac".into()), ("duration".into(), text.clone()), ("Range".into(), format!("{text}-"))];
+        let d = Duration::from_millis(ms);
+        let want = ASong { url: "d.flac".into(), duration: Some(d), range: Some((d, None)), ..Default::default() };
+        let mut acc = Acc::default();
+        check_fields(&fields, &[want], case, &mut acc, true);
+        return if acc.viol.is_empty() { println!("replay: property holds on this case"); 0 } else { println!("replay: VIOLATION"); 1 };
+    }
     let listing = listing_from_json(case);
     println!("replay C14: listing {listing:?}");
     let mut acc = Acc::default();
